@@ -22,7 +22,7 @@ ASSUMPTIONS = ["interpolation-error tolerances are 4x a classical bound (max|g''
                "phase_align checked in mode='cycle' only"]
 
 FUNCS = {
-    'mean': np.mean, 'max': np.max, 'sum': np.sum, 'len': len,
+    'mean': np.mean, 'max': np.max, 'min': np.min, 'sum': np.sum, 'len': len,
     'first': lambda v: v[0], 'range': lambda v: v.max() - v.min(),
 }
 
@@ -54,7 +54,10 @@ def stat_case(draw):
         if not (lab == a).any():
             lab[idx[0]] = a
     vals = np.round(rng.standard_normal(lab.size) * 10, 3)
-    dt = draw(st.sampled_from(['float', 'float', 'int', 'bool']))
+    dt = draw(st.sampled_from(['float', 'float', 'int', 'bool', 'float-with-nan']))
+    if dt == 'float-with-nan':          # missing observations: a statistic is the function applied to the samples, NaN and all
+        vals = vals.copy()
+        vals[rng.random(vals.size) < 0.15] = np.nan
     if dt == 'int':
         vals = np.round(vals).astype(int)
     elif dt == 'bool':
